@@ -139,7 +139,9 @@ class C19(PropBase):
         "implicit stack accesses, instruction-pointer update, register set order) tied to the code by correspondence; the C08 range-table model for region lookup",
         "the amd64 decoder (yaxpeax) is not modelled: the theorems quantify over an arbitrary analysis result; for Q cases the generator's own encoder "
         "supplies the decoded form and the harness compares the resulting accesses / ip update / adjusted address / flips with the real analysis",
-        "glue outside the anchored files, validated by correspondence only: Driver.v q_address / q_reason (minidump::get_crash_address, CrashReason::from_exception)",
+        "minidump-crate side (Pipeline.v crash_address / reason_of / os_class): Os / PlatformId / per-OS reason dispatch / error enums regenerated, "
+        "get_crash_address and the AV / SIGSEGV / SIGBUS / EXC_BAD_ACCESS refinements of from_{windows,linux,mac}_exception pinned textually; every other crash "
+        "reason is one class (irrelevant to the GPF test and to the memory operation); validated by the Q correspondence",
         "extraction ExtrOcamlBasic only; ocaml/c19/main.ml; harness/src/bin/c19.rs (hook minidump_processor::verif_hooks)",
     ]
     assumptions = ["instruction decoding (yaxpeax) is not modelled: theorems hold for every analysis result; P cases with planted bytes and Q cases the generator "
@@ -156,7 +158,9 @@ class C19(PropBase):
                 "address -> both passes: a flagged (null pointer) address silences both passes, a non-canonical adjustment only on amd64 + GPF + "
                 "accessed address in the non-canonical range and then bits 48..64; operand evaluation: flagged iff the base register reads 0; "
                 "zero base register / zero call target => nothing reported; the whole property in plain arithmetic on MemoryInfoList / Linux-maps "
-                "records. Constants, tables, gates and clamps are regenerated from the source each run; model compared with try_bit_flips (guarded "
+                "records; from the raw records (processor_architecture, platform_id, exception record): no flips unless AMD64/PPC64/MIPS64, "
+                "bits 48..64 only for an AMD64 dump with one of the three GPF record shapes (never Android/iOS). Completeness: every qualifying "
+                "neighbour of every examined value is reported. Constants, tables, gates and clamps are regenerated from the source each run; model compared with try_bit_flips (guarded "
                 "hook) and with whole-dump processing incl. the analysis result for generated instructions; an independent oracle re-checks the "
                 "property on the real output.",
         "note": "Trusted: Coq kernel (+VM); Flocq as f32 semantics (brings the standard library's real-number and classical axioms under c19_confidence_01 only); "
